@@ -8,10 +8,19 @@ HARNESSES.append(
     dict(name="rebuild", src="rebuild.c", extra_src=["lib/ext2fs/dir_iterate.c"],
          funcs=["fill_dir_block", "copy_dir_entries", "get_next_block"],
          cut_statics={"e2fsck/rehash.c": ["alloc_size_dir"]},
-         configs=[{"BLK": 24}, {"BLK": 32}],
+         configs=[{"BLK": 32}, {"BLK": 36, "SWAP": None}, {"BLK": 32, "COMPRESS": None}, {"BLK": 48, "SWAP": None, "_tier": "thorough"}],
          unwind=4, unwindset=["ref_count.0:34", "ref_count.1:12", "fill_dir_block.0:7", "copy_dir_entries.0:6",
                               "main.0:42", "main.1:10", "main.2:10", "main.3:7", "main.4:7", "ext2fs_read_dir_block4.0:42",
                               "memcpy.0:36", "memset.0:42"],
          backends=["default", "kissat"],
          bound="one directory block of 40 bytes, every byte symbolic; slack percentage 0..100; one symbolic transposition of the entry array"))
+HARNESSES.append(
+    dict(name="fill", src="rebuild.c", extra_src=["lib/ext2fs/dir_iterate.c"],
+         funcs=["fill_dir_block"],
+         cut_statics={"e2fsck/rehash.c": ["alloc_size_dir"]},
+         configs=[{"BLK": 48, "FILLONLY": None}, {"BLK": 48, "FILLONLY": None, "COMPRESS": None}, {"BLK": 64, "FILLONLY": None, "_tier": "thorough"}],
+         unwind=4, unwindset=["ref_count.0:58", "ref_count.1:18", "fill_dir_block.0:10", "main.0:66", "main.1:10", "main.2:10",
+                              "ext2fs_read_dir_block4.0:66"],
+         backends=["default", "kissat"],
+         bound="one directory block of 48 (thorough: 64) bytes, every byte symbolic; hash version and flags symbolic"))
 MANIFEST = {"text": "", "note": ""}
